@@ -128,6 +128,24 @@ def r2_callbacks(report, repo, loop):
                  'loop; handler neither raises, returns nor breaks',
                  'a raising callback is not contained inside the loop: later '
                  'callbacks are not called')
+  for c in calls:
+    sh = lib.shielded_by_try(c, ('Exception', 'BaseException', None))
+    if sh is None:
+      continue
+    # the handler itself must not be able to fail on behalf of the callback:
+    # besides logging it calls nothing with the callback object
+    risky = [st for st in sh[1].body if isinstance(st, ast.Expr) and isinstance(
+        st.value, ast.Call) and not (
+            isinstance(st.value.func, ast.Attribute) and
+            st.value.func.attr in cfgm._LOG_METHODS and 'log' in (  # pylint: disable=protected-access
+                dotted(st.value.func.value) or '').lower()) and any(
+                    dotted(a) == var for a in st.value.args)]
+    report.check(not risky, rule, f.qualname, 'handler-only-logs', sh[1],
+                 'the handler only logs',
+                 'the handler passes the failing callback to `%s`: if that '
+                 'raises (e.g. an unhashable callback put into a set) the '
+                 'exception leaves the loop and later callbacks never get the '
+                 'record' % (norm(risky[0].value.func) if risky else ''))
   bad = [n for n in walk_no_nested(loop)
          if isinstance(n, (ast.Break, ast.Return))]
   report.check(not bad, rule, f.qualname, 'loop-not-left', loop,
